@@ -1,6 +1,9 @@
 (* Correspondence checker "VM" (development aid): compiled programs printed by harness/src/vmrun.rs are run on
    the model Vm.v (with the Flocq binary64 instance) and compared with what the real VM did.
    Codes: 1 = the model's prediction differs (outcome / error trace / a global / the host log),
+          2 = the implementation panicked during a run (observation ObPanic): errors must be values, there is no
+              legitimate panic - reported whatever the model predicts (if the model predicts the panic too there
+              is no code 1, but still code 2),
           3 = the model cannot predict this run (Diverge, Crash, UB, unmodelled native) or the case is malformed,
           4 = the opcode table of instruction.rs differs from the one Vm.v was written against. *)
 From Coq Require Import NArith ZArith List Bool.
@@ -108,6 +111,9 @@ Definition flat_agrees (debug : bool) (budget : nat) (P : program) (s0 : state) 
       N.eqb (st_count sf) (st_count s1)
   end.
 
+(* a panic of the implementation is a specification failure by itself *)
+Definition panic_code (o : obs) : list N := match ob_out o with ObPanic => [2] | _ => [] end.
+
 (* codes of a sequence of runs; [s] = state the next run starts from when the VM is reused *)
 Fixpoint check_runs (debug : bool) (mode : vmmode) (first : bool) (P : program) (s : state) (runs : list (N * obs)) : list N :=
   match runs with
@@ -120,6 +126,7 @@ Fixpoint check_runs (debug : bool) (mode : vmmode) (first : bool) (P : program) 
                 end in
       let '(m, s1) := run flocq_ops (bld_of debug) (N.to_nat budget) P s0 in
       (if flat_agrees debug (N.to_nat budget) P s0 m s1 then [] else [5]) ++
+      panic_code o ++
       match outcome_matches m (ob_out o) with
       | None => [3]
       | Some false => [1]
